@@ -10,9 +10,10 @@
        the extracted UnsatCoreBuilder::minimize: full = 1 (:print-cores-full) or 0; current = the current assertions,
        bits = TermNames::contains of each (0/1, same length); targets = allTerms (full) / namedTerms (named).
        Answer:  ok <result>|   or   missing <l>
-   core <undef>|<ders>|<leafmasks>|<parts>|<full>|<minCore>|<namesEmpty>|<contains>
+   core <undef>|<ders>|<leafmasks>|<parts>|<full>|<minCore>|<namesEmpty>|<contains>|<orig>
        the extracted UnsatCoreBuilder::buildBody up to partitionNamedTerms.  ders: entries c:t:p1,p2,.. separated by ';'
-       (t = clause_type as integer 0..5); leafmasks: c:b1,b2,..; parts: t:i in map order; contains: t:b.
+       (t = clause_type as integer 0..5); leafmasks: c:b1,b2,..; parts: t:i1,i2,.. in map order (the indices that count for
+       the term: one in the code as it is); contains: t:b; orig: r:o (stored formula -> assertion as given; default identity).
        Answer:  ok <leaves>|<allTerms>|<named>|<hidden>    (named/hidden empty in full mode)   or   none
 *)
 open Core_model
@@ -36,7 +37,7 @@ let ctype_of_int = function 0 -> CLA_ORIG | 1 -> CLA_LEARNT | 2 -> CLA_THEORY | 
 
 let handle_core rest =
   match String.split_on_char '|' rest with
-  | [undef; ders; lm; parts; full; minc; nempty; cont] ->
+  | [undef; ders; lm; parts; full; minc; nempty; cont; orig] ->
       let p = List.map (fun e -> match String.split_on_char ':' e with
           | [c; t; ps] -> (n_of_int (int_of_string c), { d_type = ctype_of_int (int_of_string t); d_chain = List.map n_of_int (ints ps) })
           | _ -> failwith "bad der") (entries ders) in
@@ -44,7 +45,10 @@ let handle_core rest =
           | [c; bs] -> (int_of_string c, List.map nat_of_int (ints bs)) | _ -> failwith "bad leaf mask") (entries lm) in
       let cmask c = (match List.assoc_opt (int_of_n c) lmt with Some m -> m | None -> []) in
       let pm = List.map (fun e -> match String.split_on_char ':' e with
-          | [t; i] -> (n_of_int (int_of_string t), nat_of_int (int_of_string i)) | _ -> failwith "bad part") (entries parts) in
+          | [t; i] -> (n_of_int (int_of_string t), List.map nat_of_int (ints i)) | _ -> failwith "bad part") (entries parts) in
+      let om = List.map (fun e -> match String.split_on_char ':' e with
+          | [r; o] -> (int_of_string r, int_of_string o) | _ -> failwith "bad orig") (entries orig) in
+      let origf t = (match List.assoc_opt (int_of_n t) om with Some o -> n_of_int o | None -> t) in
       let ct = List.map (fun e -> match String.split_on_char ':' e with
           | [t; b] -> (int_of_string t, String.trim b = "1") | _ -> failwith "bad contains") (entries cont) in
       let contains t = (match List.assoc_opt (int_of_n t) ct with Some b -> b | None -> false) in
@@ -54,11 +58,11 @@ let handle_core rest =
       (match computeClauses und p with
        | None -> print_endline "none"
        | Some leaves ->
-           (match buildCore (b full) (b minc) (b nempty) contains cmask pm und p with
+           (match buildCore (b full) (b minc) (b nempty) contains cmask pm origf und p with
             | None -> print_endline "none"
             | Some (FullCore all) -> Printf.printf "ok %s|%s||\n" (shown leaves) (shown all)
             | Some (NamedCore (nm, hd)) ->
-                Printf.printf "ok %s|%s|%s|%s\n" (shown leaves) (shown (mapClausesToTerms cmask pm leaves)) (shown nm) (shown hd)))
+                Printf.printf "ok %s|%s|%s|%s\n" (shown leaves) (shown (mapClausesToTerms cmask pm origf leaves)) (shown nm) (shown hd)))
   | _ -> print_endline "bad"
 
 let handle_min rest =
